@@ -688,6 +688,9 @@ class Envelope(core_events.Consecution, typing.Generic[T]):
             # moment in time anyway (or better: its main function is
             # to ensure that interpolation from the previous point
             # to this point works as expected).
+            # The event that is active at 'start' has to end there with
+            # the matching share of its curve shape.
+            self.sample_at(start)
             parameter_0 = self.parameter_at(start)
             event_0 = self._make_event(0, parameter_0, 0)
 
